@@ -38,6 +38,11 @@ theorem resolve_normal (k : SKey) (hw : k.WF) (hne : k.render ≠ []) :
     chain true k.render = k.path :=
   chain_render k hw hne
 
+/-- lookup by key text is lookup along the meaning of the key (the two layers compose) -/
+theorem lookup_by_meaning (cfg : Cfg) (hfix : cfg.fixResolve = true) (t : Tree) (k : SKey) (hw : k.WF)
+    (hne : k.render ≠ []) : getT cfg t k.render = getK (rootKvs t) k.path.segs k.path.fin := by
+  simp only [getT, hfix, resolve_normal k hw hne]
+
 /-- **`p.x..q` addresses what `p.q` addresses**: a component followed by two dots is skipped, whatever
 it is (it is not even looked up), at any depth and after any prefix. -/
 theorem dotdot_addresses_parent (ld : Nat) (pre : List (Name × Nat)) (x : Name) (q : List (Name × Nat))
